@@ -344,4 +344,34 @@ def unionSimplifyT (fuel : Nat) (stk frn : Stack) (ours : List M) (other : M) : 
       | _ => .ok none
 end
 
+/-! ### `parse_marker` called while the thread already has frames on its `detect_recursion` lists
+(it is called from inside `_merge_single_markers` / `SingleMarker.invert`, i.e. possibly under `intersection`/`union`) -/
+
+/-- `parse_marker(text)` body with the caller's frames `stk`: the top-level `union(*sub_markers)` sees them -/
+def parseMarkerStk (stk : Stack) (text : String) : PyM M :=
+  if text == "<empty>" then .ok .empty
+  else if text.isEmpty || text == "*" then .ok .any
+  else do
+    let syn ← parseText text
+    let subs ← compactSubMarkers syn
+    unionF defaultFuel stk subs
+
+/-- with the `except RecursionError: raise InvalidMarkerError` guard of the public function -/
+def parseMarkerTopStk (stk : Stack) (text : String) : PyM M :=
+  match parseMarkerStk stk text with
+  | .error .recursion => .error .value
+  | r => r
+
+/-- taint-tracking run: the caller's frames are foreign -/
+def parseMarkerT (frn : Stack) (text : String) : PyM M :=
+  if text == "<empty>" then .ok .empty
+  else if text.isEmpty || text == "*" then .ok .any
+  else do
+    let syn ← parseText text
+    let subs ← compactSubMarkers syn
+    unionFT defaultFuel [] frn subs
+
+theorem parseMarkerStk_nil (text : String) : parseMarkerStk [] text = parseMarker text := rfl
+theorem parseMarkerTopStk_nil (text : String) : parseMarkerTopStk [] text = parseMarkerTop text := rfl
+
 end Poetry.Marker
